@@ -77,6 +77,7 @@ template <class E> Segment c18SeqSegment(long nQ, long nT) {
     s.run = [=](long kk, uint64_t seed, bool, Result& res) {
         vh::Rng r(vh::mix(seed ^ 0xC18, uint64_t(kk) * 4 + D));
         auto c = randomConf<E>(r, vh::mix(seed, kk), 300, false, E::Space::IsPeriodic ? 2 : 1);
+        if (kk % 5 == 4 && !E::Space::IsPeriodic) c.upper = c.geo.H - 1 + long(r.below(3));   // upper level at or beyond the leaf level: no far-field operator may be counted
         const long N = long(c.parts.size());
         res.desc = confDesc<E>(c) + " executor=sequential kernel=" + (kk % 3 == 0 ? "counter<P-poly>" : kk % 3 == 1 ? "counter<TbfTestKernel>" : "timer<P-poly>");
         // reference with the unwrapped kernel
